@@ -1,5 +1,6 @@
 import Pendulum.Proofs.FmtClass
-/-! Round trip `parse (format v fmt) fmt` for the class 𝓕 (numeric tokens, literal separators). -/
+/-! Round trip `parse (format v fmt) fmt` for the class 𝓕 (numeric tokens incl. 12-hour clock + meridiem, day of the year,
+two-digit year, every fraction width; literal separators). -/
 namespace Pendulum.Fmt
 
 /-- a format of the class, already cut into items -/
@@ -12,17 +13,17 @@ def FItem.toItem : FItem → Item
   | .lit c => Item.lit [c]
   | .tok t => Item.tok t.str.toList
 
-def FItem.piece (v : Val) : FItem → Str
+def FItem.piece (L : Loc) (v : Val) : FItem → Str
   | .lit c => [c]
-  | .tok t => t.render v
+  | .tok t => t.render L v
 
 def FItem.toPEl : FItem → PEl
   | .lit c => PEl.lit c
   | .tok t => PEl.tok t.str
 
-def FItem.toEl : FItem → El
+def FItem.toEl (L : Loc) : FItem → El
   | .lit c => litEl c
-  | .tok t => t.lens
+  | .tok t => t.lens L
 
 def toks : List FItem → List NTok
   | [] => []
@@ -44,12 +45,15 @@ def WellSep : List FItem → Bool
 /-- no token occurs twice (`re` rejects a repeated group name) -/
 def NoRepeat (its : List FItem) : Bool := !hasDup ((toks its).map NTok.str)
 
-def rendered (v : Val) (its : List FItem) : Str := (its.map (FItem.piece v)).flatten
+/-- the locale condition of the class: only formats with the `A` token need distinguishable meridiem words -/
+def LocOK (L : Loc) (its : List FItem) : Prop := NTok.A ∈ toks its → AmPmOK L = true
+
+def rendered (L : Loc) (v : Val) (its : List FItem) : Str := (its.map (FItem.piece L v)).flatten
 
 theorem ofList_toList (t : NTok) : String.ofList t.str.toList = t.str := by cases t <;> rfl
 
 theorem formatItems_class (L : Loc) (v : Val) : ∀ its : List FItem,
-    formatItems L v.toDTF (its.map FItem.toItem) = .ok (rendered v its) := by
+    formatItems L v.toDTF (its.map FItem.toItem) = .ok (rendered L v its) := by
   intro its
   induction its with
   | nil => rfl
@@ -68,7 +72,7 @@ theorem pelsOf_class : ∀ its : List FItem, pelsOf (its.map FItem.toItem) = its
     | lit c => simp [FItem.toItem, FItem.toPEl, pelsOf, ih]
     | tok t => simp [FItem.toItem, FItem.toPEl, pelsOf, ih]
 
-theorem elsOf_class (L : Loc) : ∀ its : List FItem, elsOf L (its.map FItem.toPEl) = .ok (its.map FItem.toEl) := by
+theorem elsOf_class (L : Loc) : ∀ its : List FItem, elsOf L (its.map FItem.toPEl) = .ok (its.map (FItem.toEl L)) := by
   intro its
   induction its with
   | nil => rfl
@@ -79,8 +83,8 @@ theorem elsOf_class (L : Loc) : ∀ its : List FItem, elsOf L (its.map FItem.toP
       obtain ⟨f, hf, he⟩ := groupOf_NTok L t
       simp only [List.map_cons, FItem.toPEl, elsOf, hf, ih, FItem.toEl, he]; rfl
 
-theorem digitRun_rendered (v : Val) (hv : InRange v) : ∀ its : List FItem, startsNonDigit its = true →
-    digitRun (rendered v its) = 0 := by
+theorem digitRun_rendered (L : Loc) (v : Val) (hv : InRange v) : ∀ its : List FItem, startsNonDigit its = true →
+    digitRun (rendered L v its) = 0 := by
   intro its h
   cases its with
   | nil => rfl
@@ -91,7 +95,7 @@ theorem digitRun_rendered (v : Val) (hv : InRange v) : ∀ its : List FItem, sta
       exact digitRun_cons_nondigit c _ h
     | tok t =>
       have hb := hv.off.2
-      have key : ∀ sep, digitRun (offsetStr sep v.off ++ rendered v its) = 0 := by
+      have key : ∀ sep, digitRun (offsetStr sep v.off ++ rendered L v its) = 0 := by
         intro sep
         obtain ⟨a, b, c, d, _, _, _, _, hform, _⟩ := offsetStr_form v.off hb
         rw [hform sep]
@@ -100,40 +104,49 @@ theorem digitRun_rendered (v : Val) (hv : InRange v) : ∀ its : List FItem, sta
       · exact key true
       · exact key false
 
-theorem good_class (v : Val) (hv : InRange v) : ∀ its : List FItem, WellSep its = true →
-    Good (its.map FItem.toEl) (its.map (FItem.piece v)) := by
+theorem locOK_tail (L : Loc) (i : FItem) (its : List FItem) (h : LocOK L (i :: its)) : LocOK L its := by
+  intro hm; apply h
+  cases i <;> simp [toks, hm]
+
+theorem good_class (L : Loc) (v : Val) (hv : InRange v) : ∀ its : List FItem, LocOK L its → WellSep its = true →
+    Good (its.map (FItem.toEl L)) (its.map (FItem.piece L v)) := by
   intro its
   induction its with
-  | nil => intro _; trivial
+  | nil => intro _ _; trivial
   | cons i its ih =>
-    intro h
+    intro hL h
+    have hL' := locOK_tail L i its hL
     cases i with
     | lit c =>
       simp only [WellSep] at h
-      refine ⟨⟨[], ?_⟩, ih h⟩
+      refine ⟨⟨[], ?_⟩, ih hL' h⟩
       simp [FItem.toEl, FItem.piece, litEl]
     | tok t =>
       simp only [WellSep, Bool.and_eq_true, Bool.or_eq_true] at h
-      refine ⟨?_, ih h.2⟩
-      have hsep : t.fixed = true ∨ digitRun (rendered v its) = 0 := by
+      refine ⟨?_, ih hL' h.2⟩
+      have hsep : t.fixed = true ∨ digitRun (rendered L v its) = 0 := by
         rcases h.1 with hf | hs
         · exact Or.inl hf
-        · exact Or.inr (digitRun_rendered v hv its hs)
-      exact lens_head v hv t _ hsep
+        · exact Or.inr (digitRun_rendered L v hv its hs)
+      exact lens_head L v hv t (fun e => hL (by subst e; simp [toks])) _ hsep
 
-theorem tokPieces_class (v : Val) : ∀ its : List FItem,
-    tokPieces (its.map FItem.toPEl) (its.map (FItem.piece v)) = (toks its).map (fun t => (t.str, t.render v)) := by
+theorem tokPieces_class (L : Loc) (v : Val) : ∀ its : List FItem,
+    tokPieces (its.map FItem.toPEl) (its.map (FItem.piece L v)) = (toks its).map (fun t => (t.str, t.render L v)) := by
   intro its
   induction its with
   | nil => rfl
   | cons i its ih => cases i <;> simp [FItem.toPEl, FItem.piece, tokPieces, toks, ih]
 
 theorem applyGroups_class (L : Loc) (v : Val) (hv : InRange v) : ∀ (ts : List NTok) (p : Parsed),
-    applyGroups L (ts.map (fun t => (t.str, t.render v))) p = .ok (ts.foldl (fun p t => t.set v p) p) := by
+    (NTok.A ∈ ts → AmPmOK L = true) →
+    applyGroups L (ts.map (fun t => (t.str, t.render L v))) p = .ok (ts.foldl (fun p t => t.set v p) p) := by
   intro ts
   induction ts with
-  | nil => intro p; rfl
-  | cons t ts ih => intro p; simp only [List.map_cons, applyGroups, applyGroup_NTok L v hv t p, ih, List.foldl_cons]
+  | nil => intro p _; rfl
+  | cons t ts ih =>
+    intro p hL
+    simp only [List.map_cons, applyGroups, applyGroup_NTok L v hv t (fun e => hL (by subst e; simp)) p,
+      ih _ (fun hm => hL (by simp [hm])), List.foldl_cons]
 
 theorem tokNames_class : ∀ its : List FItem,
     (its.map FItem.toPEl).filterMap PEl.tokName? = (toks its).map NTok.str := by
@@ -145,9 +158,9 @@ theorem tokNames_class : ∀ its : List FItem,
 /-- **round trip, general form**: for every value in range and every well-separated format of the class,
     parsing what `format` wrote assigns exactly the fields the tokens carry and then applies the defaults -/
 theorem parse_format_class (L : Loc) (v : Val) (hv : InRange v) (its : List FItem) (now : Now)
-    (hne : its ≠ []) (hsep : WellSep its = true) (hrep : NoRepeat its = true) :
-    formatItems L v.toDTF (its.map FItem.toItem) = .ok (rendered v its) ∧
-    parseItems L (rendered v its) (its.map FItem.toItem) now =
+    (hne : its ≠ []) (hsep : WellSep its = true) (hrep : NoRepeat its = true) (hL : LocOK L its) :
+    formatItems L v.toDTF (its.map FItem.toItem) = .ok (rendered L v its) ∧
+    parseItems L (rendered L v its) (its.map FItem.toItem) now =
       checkParsed ((toks its).foldl (fun p t => t.set v p) {}) now := by
   refine ⟨formatItems_class L v its, ?_⟩
   unfold parseItems
@@ -155,9 +168,9 @@ theorem parse_format_class (L : Loc) (v : Val) (hv : InRange v) (its : List FIte
   simp only [h1, pelsOf_class, elsOf_class, tokNames_class, Bool.false_eq_true, if_false]
   have h2 : hasDup ((toks its).map NTok.str) = false := by simpa [NoRepeat] using hrep
   simp only [h2, Bool.false_eq_true, if_false]
-  have hg := dfs_good _ _ (good_class v hv its hsep)
+  have hg := dfs_good _ _ (good_class L v hv its hL hsep)
   simp only [rendered, hg]
-  rw [groupValues_pieces _ _ (by simp), tokPieces_class, applyGroups_class L v hv]
+  rw [groupValues_pieces _ _ (by simp), tokPieces_class, applyGroups_class L v hv _ _ hL]
 
 end Pendulum.Fmt
 
@@ -178,63 +191,260 @@ theorem checkParsed_plain (p : Parsed) (now : Now)
   simp only [h1, h2, h3, h4, h5]
   cases hm : p.month <;> cases hd : p.day <;> simp [orNow, bind, Except.bind, pure, Except.pure]
 
+/-! ### `_check_parsed` for the states the class produces -/
+
+theorem doy_rebuild (y mo d : Int) (hv : Cal.validDate y mo d) :
+    Cal.ord2ymd (Cal.ymd2ord y 1 1 + Cal.dayOfYear y mo d - 1) = (y, mo, d) ∧
+    1 ≤ Cal.dayOfYear y mo d ∧ Cal.dayOfYear y mo d ≤ Cal.daysInYear y := by
+  have e : Cal.ymd2ord y 1 1 + Cal.dayOfYear y mo d - 1 = Cal.ymd2ord y mo d := by
+    unfold Cal.ymd2ord Cal.dayOfYear; simp [Cal.daysBeforeMonth]; omega
+  rw [e, Cal.ord2ymd_ymd2ord y mo d hv]
+  refine ⟨rfl, ?_, ?_⟩
+  · obtain ⟨h1, h2, h3, _⟩ := hv
+    have := Cal.dbm_bounds (Cal.isLeap y) mo ⟨h1, h2⟩
+    unfold Cal.dayOfYear; omega
+  · obtain ⟨h1, h2, h3, h4⟩ := hv
+    have : mo = 1 ∨ mo = 2 ∨ mo = 3 ∨ mo = 4 ∨ mo = 5 ∨ mo = 6 ∨ mo = 7 ∨ mo = 8 ∨ mo = 9 ∨ mo = 10 ∨ mo = 11 ∨ mo = 12 := by omega
+    unfold Cal.dayOfYear Cal.daysInYear
+    rcases this with h|h|h|h|h|h|h|h|h|h|h|h <;> subst h <;> cases hl : Cal.isLeap y <;>
+      simp [Cal.daysBeforeMonth, Cal.daysInMonth, hl] at h4 ⊢ <;> omega
+
+theorem meridiemTooLate_small (k : Int) (mi s us : Option Int) (hk : k ≤ 12) : meridiemTooLate k mi s us = .ok false := by
+  unfold meridiemTooLate
+  rw [if_neg (by omega), if_pos (by omega)]
+
+/-- `_check_parsed` on a state with a year, a date given by month and day or by the day of the year, and an hour given on
+    the 24-hour clock or on the 12-hour clock with the meridiem -/
+theorem checkParsed_class (p : Parsed) (now : Now) (y mo d h : Int)
+    (h1 : p.timestamp = none) (h2 : p.quarter = none) (h4 : p.day_of_week = none) (hy : p.year = some y)
+    (hdate : (p.day_of_year = none ∧ p.month = some mo ∧ p.day = some d) ∨
+             (p.day_of_year = some (Cal.dayOfYear y mo d) ∧ Cal.validDate y mo d ∧ 1000 ≤ y ∧ y ≤ 9999))
+    (hhour : (p.meridiem = none ∧ p.hour = some h) ∨
+             (∃ k, p.meridiem = some (decide (h ≥ 12)) ∧ p.hour = some k ∧ 1 ≤ k ∧ k ≤ 12 ∧ k % 12 = h % 12 ∧ 0 ≤ h ∧ h ≤ 23)) :
+    checkParsed p now = .ok ⟨y, mo, d, h, p.minute.getD 0, p.second.getD 0, p.microsecond.getD 0, p.tz⟩ := by
+  unfold checkParsed
+  simp only [h1, h2, h4, hy]
+  rcases hdate with ⟨d1, d2, d3⟩ | ⟨d1, dv, dy1, dy2⟩
+  · rcases hhour with ⟨m1, m2⟩ | ⟨k, m1, m2, k1, k2, k3, k4, k5⟩
+    · simp [d1, d2, d3, m1, m2, bind, Except.bind, pure, Except.pure]
+    · simp only [d1, d2, d3, m1, m2, bind, Except.bind, pure, Except.pure, meridiemTooLate_small k _ _ _ k2]
+      by_cases hp : h ≥ 12
+      · have : k % 12 + 12 = h := by omega
+        simp [hp, this]
+      · have : k % 12 = h := by omega
+        simp [hp, this]
+  · obtain ⟨r1, r2, r3⟩ := doy_rebuild y mo d dv
+    rcases hhour with ⟨m1, m2⟩ | ⟨k, m1, m2, k1, k2, k3, k4, k5⟩
+    · simp [d1, m1, m2, bind, Except.bind, pure, Except.pure, r1, r2, r3, dy1, dy2]
+    · simp only [d1, m1, m2, bind, Except.bind, pure, Except.pure, meridiemTooLate_small k _ _ _ k2]
+      by_cases hp : h ≥ 12
+      · have : k % 12 + 12 = h := by omega
+        simp [hp, this, r1, r2, r3, dy1, dy2]
+      · have : k % 12 = h := by omega
+        simp [hp, this, r1, r2, r3, dy1, dy2]
+
 /-! ### the state after reading all groups -/
 
-theorem fold_field {α : Type} (v : Val) (π : Parsed → Option α) (sets : NTok → Bool) (c : α)
-    (h : ∀ t p, π (t.set v p) = if sets t then some c else π p) :
-    ∀ (ts : List NTok) (p : Parsed), π (ts.foldl (fun p t => t.set v p) p) = if ts.any sets then some c else π p := by
+theorem fold_field {α : Type} (v : Val) (π : Parsed → Option α) (sets : NTok → Bool) (c : α) :
+    ∀ (ts : List NTok) (p : Parsed), (∀ t ∈ ts, ∀ p, π (t.set v p) = if sets t then some c else π p) →
+      π (ts.foldl (fun p t => t.set v p) p) = if ts.any sets then some c else π p := by
   intro ts
   induction ts with
-  | nil => intro p; simp
+  | nil => intro p _; simp
   | cons t ts ih =>
-    intro p
-    rw [List.foldl_cons, ih, h t p]
+    intro p h
+    rw [List.foldl_cons, ih _ (fun t' ht' => h t' (by simp [ht'])), h t (by simp) p]
     by_cases a : ts.any sets = true <;> by_cases b : sets t = true <;> simp [a, b]
 
-/-- the format carries a full date, time, fraction and offset -/
+def NTok.isYear : NTok → Bool | .YYYY | .YY => true | _ => false
+def NTok.isMonth : NTok → Bool | .MM | .M => true | _ => false
+def NTok.isDay : NTok → Bool | .DD | .D => true | _ => false
+def NTok.isDoy : NTok → Bool | .DDDD | .DDD => true | _ => false
+def NTok.is24 : NTok → Bool | .HH | .H => true | _ => false
+def NTok.is12 : NTok → Bool | .hh | .h => true | _ => false
+def NTok.isMin : NTok → Bool | .mm | .m => true | _ => false
+def NTok.isSec : NTok → Bool | .ss | .s => true | _ => false
+def NTok.isOff : NTok → Bool | .Z | .ZZ => true | _ => false
+def NTok.isFrac : NTok → Bool | .S | .SS | .SSS | .SSSS | .SSSSS | .SSSSSS => true | _ => false
+def NTok.isA : NTok → Bool | .A => true | _ => false
+
+/-- microseconds per unit of the last printed fraction digit -/
+def NTok.scale : NTok → Int
+  | .S => 100000 | .SS => 10000 | .SSS => 1000 | .SSSS => 100 | .SSSSS => 10 | _ => 1
+
+/-- the tokens of the first version of the class (24-hour clock, four-digit year, month and day, six fraction digits) -/
+def NTok.basic : NTok → Bool
+  | .YYYY | .MM | .M | .DD | .D | .HH | .H | .mm | .m | .ss | .s | .SSSSSS | .Z | .ZZ => true
+  | _ => false
+
+/-- the format carries a full date (year + month and day, or year + day of the year), a full time (24-hour clock, or
+    12-hour clock with the meridiem), the fraction token `f` and no other, and an offset -/
+def FullX (its : List FItem) (f : NTok) : Bool :=
+  let ts := toks its
+  ts.any NTok.isYear && ((ts.any NTok.isMonth && ts.any NTok.isDay) || ts.any NTok.isDoy)
+    && ((ts.any NTok.is24 && !ts.any NTok.is12 && !ts.any NTok.isA) || (ts.any NTok.is12 && !ts.any NTok.is24 && ts.any NTok.isA))
+    && ts.any NTok.isMin && ts.any NTok.isSec && ts.any NTok.isOff
+    && f.isFrac && ts.any (· == f) && ts.all (fun t => !t.isFrac || t == f)
+
+/-- the format carries a full date, time, fraction and offset, written with the basic tokens -/
 def Full (its : List FItem) : Bool :=
   let ts := toks its
+  ts.all NTok.basic &&
   ts.any (· == NTok.YYYY) && ts.any (fun t => t == NTok.MM || t == NTok.M) && ts.any (fun t => t == NTok.DD || t == NTok.D)
     && ts.any (fun t => t == NTok.HH || t == NTok.H) && ts.any (fun t => t == NTok.mm || t == NTok.m)
     && ts.any (fun t => t == NTok.ss || t == NTok.s) && ts.any (· == NTok.SSSSSS) && ts.any (fun t => t == NTok.Z || t == NTok.ZZ)
 
-theorem state_full (v : Val) (ts : List NTok)
-    (hy : ts.any (· == NTok.YYYY) = true) (hmo : ts.any (fun t => t == NTok.MM || t == NTok.M) = true)
-    (hd : ts.any (fun t => t == NTok.DD || t == NTok.D) = true) (hh : ts.any (fun t => t == NTok.HH || t == NTok.H) = true)
-    (hmi : ts.any (fun t => t == NTok.mm || t == NTok.m) = true) (hs : ts.any (fun t => t == NTok.ss || t == NTok.s) = true)
-    (hus : ts.any (· == NTok.SSSSSS) = true) (hz : ts.any (fun t => t == NTok.Z || t == NTok.ZZ) = true) (now : Now) :
+theorem any_congr_mem {α} (l : List α) (p q : α → Bool) (h : ∀ x ∈ l, p x = q x) : l.any p = l.any q := by
+  induction l with
+  | nil => rfl
+  | cons a l ih => simp only [List.any_cons, h a (by simp), ih (fun x hx => h x (by simp [hx]))]
+
+theorem full_fullX (its : List FItem) (h : Full its = true) : FullX its NTok.SSSSSS = true := by
+  simp only [Full, Bool.and_eq_true] at h
+  obtain ⟨⟨⟨⟨⟨⟨⟨⟨hb, a1⟩, a2⟩, a3⟩, a4⟩, a5⟩, a6⟩, a7⟩, a8⟩ := h
+  have hb' : ∀ t ∈ toks its, t.basic = true := by simpa [List.all_eq_true] using hb
+  have c1 : (toks its).any NTok.isYear = true := by
+    rw [← a1]; exact any_congr_mem _ _ _ (fun t ht => by have := hb' t ht; cases t <;> first | rfl | simp [NTok.basic] at this)
+  have c2 : (toks its).any NTok.isMonth = true := by rw [← a2]; exact any_congr_mem _ _ _ (fun t _ => by cases t <;> rfl)
+  have c3 : (toks its).any NTok.isDay = true := by rw [← a3]; exact any_congr_mem _ _ _ (fun t _ => by cases t <;> rfl)
+  have c4 : (toks its).any NTok.is24 = true := by rw [← a4]; exact any_congr_mem _ _ _ (fun t _ => by cases t <;> rfl)
+  have c5 : (toks its).any NTok.isMin = true := by rw [← a5]; exact any_congr_mem _ _ _ (fun t _ => by cases t <;> rfl)
+  have c6 : (toks its).any NTok.isSec = true := by rw [← a6]; exact any_congr_mem _ _ _ (fun t _ => by cases t <;> rfl)
+  have c8 : (toks its).any NTok.isOff = true := by rw [← a8]; exact any_congr_mem _ _ _ (fun t _ => by cases t <;> rfl)
+  have n12 : (toks its).any NTok.is12 = false := by
+    rw [List.any_eq_false]; intro t ht; have := hb' t ht; cases t <;> simp [NTok.basic, NTok.is12] at this ⊢
+  have nA : (toks its).any NTok.isA = false := by
+    rw [List.any_eq_false]; intro t ht; have := hb' t ht; cases t <;> simp [NTok.basic, NTok.isA] at this ⊢
+  have cf : (toks its).all (fun t => !t.isFrac || t == NTok.SSSSSS) = true := by
+    rw [List.all_eq_true]; intro t ht; have := hb' t ht; cases t <;> simp [NTok.basic, NTok.isFrac] at this ⊢
+  have hf : NTok.SSSSSS.isFrac = true := rfl
+  simp [FullX, c1, c2, c3, c4, c5, c6, c8, n12, nA, cf, a7, hf]
+
+/-- the state the groups of a full format leave behind passes `_check_parsed` and yields the value's own fields, the
+    microsecond truncated to the printed precision -/
+theorem state_class (v : Val) (hv : InRange v) (ts : List NTok) (f : NTok) (now : Now)
+    (hyy : NTok.YY ∈ ts → 1969 ≤ v.y ∧ v.y ≤ 2068)
+    (hvd : ts.any NTok.isDoy = true → Cal.validDate v.y v.mo v.d)
+    (hy : ts.any NTok.isYear = true)
+    (hdate : (ts.any NTok.isMonth = true ∧ ts.any NTok.isDay = true) ∨ ts.any NTok.isDoy = true)
+    (hhour : (ts.any NTok.is24 = true ∧ ts.any NTok.is12 = false ∧ ts.any NTok.isA = false) ∨
+             (ts.any NTok.is12 = true ∧ ts.any NTok.is24 = false ∧ ts.any NTok.isA = true))
+    (hmi : ts.any NTok.isMin = true) (hs : ts.any NTok.isSec = true) (hz : ts.any NTok.isOff = true)
+    (hf1 : f.isFrac = true) (hf2 : ts.any (· == f) = true) (hf3 : ∀ t ∈ ts, t.isFrac = true → t = f) :
     checkParsed (ts.foldl (fun p t => t.set v p) {}) now
-      = .ok ⟨v.y, v.mo, v.d, v.h, v.mi, v.s, v.us, some (TzP.fixed v.off)⟩ := by
-  have f1 := fold_field v Parsed.year (· == NTok.YYYY) v.y (by intro t p; cases t <;> rfl) ts {}
-  have f2 := fold_field v Parsed.month (fun t => t == NTok.MM || t == NTok.M) v.mo (by intro t p; cases t <;> rfl) ts {}
-  have f3 := fold_field v Parsed.day (fun t => t == NTok.DD || t == NTok.D) v.d (by intro t p; cases t <;> rfl) ts {}
-  have f4 := fold_field v Parsed.hour (fun t => t == NTok.HH || t == NTok.H) v.h (by intro t p; cases t <;> rfl) ts {}
-  have f5 := fold_field v Parsed.minute (fun t => t == NTok.mm || t == NTok.m) v.mi (by intro t p; cases t <;> rfl) ts {}
-  have f6 := fold_field v Parsed.second (fun t => t == NTok.ss || t == NTok.s) v.s (by intro t p; cases t <;> rfl) ts {}
-  have f7 := fold_field v Parsed.microsecond (· == NTok.SSSSSS) v.us (by intro t p; cases t <;> rfl) ts {}
-  have f8 := fold_field v Parsed.tz (fun t => t == NTok.Z || t == NTok.ZZ) (TzP.fixed v.off) (by intro t p; cases t <;> rfl) ts {}
-  have g1 := fold_field v Parsed.timestamp (fun _ => false) (0, 0) (by intro t p; cases t <;> rfl) ts {}
-  have g2 := fold_field v Parsed.quarter (fun _ => false) 0 (by intro t p; cases t <;> rfl) ts {}
-  have g3 := fold_field v Parsed.day_of_year (fun _ => false) 0 (by intro t p; cases t <;> rfl) ts {}
-  have g4 := fold_field v Parsed.day_of_week (fun _ => false) 0 (by intro t p; cases t <;> rfl) ts {}
-  have g5 := fold_field v Parsed.meridiem (fun _ => false) false (by intro t p; cases t <;> rfl) ts {}
-  simp only [hy, hmo, hd, hh, hmi, hs, hus, hz, if_true] at f1 f2 f3 f4 f5 f6 f7 f8
-  have nofalse : ts.any (fun _ => false) = false := by induction ts <;> simp_all
-  simp only [nofalse, Bool.false_eq_true, if_false] at g1 g2 g3 g4 g5
-  rw [checkParsed_plain _ now g1 g2 g3 g4 g5, f1, f2, f3, f4, f5, f6, f7, f8]
+      = .ok ⟨v.y, v.mo, v.d, v.h, v.mi, v.s, v.us / f.scale * f.scale, some (TzP.fixed v.off)⟩ := by
+  have hY := hv.y
+  have f1 := fold_field v Parsed.year NTok.isYear v.y ts {} (by
+    intro t ht p
+    cases t <;> try rfl
+    have := hyy ht
+    show some (if v.y % 100 ≤ 68 then v.y % 100 + 2000 else v.y % 100 + 1900) = some v.y
+    congr 1; split <;> omega)
+  have f2 := fold_field v Parsed.month NTok.isMonth v.mo ts {} (by intro t _ p; cases t <;> rfl)
+  have f3 := fold_field v Parsed.day NTok.isDay v.d ts {} (by intro t _ p; cases t <;> rfl)
+  have f5 := fold_field v Parsed.minute NTok.isMin v.mi ts {} (by intro t _ p; cases t <;> rfl)
+  have f6 := fold_field v Parsed.second NTok.isSec v.s ts {} (by intro t _ p; cases t <;> rfl)
+  have f7 := fold_field v Parsed.microsecond (· == f) (v.us / f.scale * f.scale) ts {} (by
+    intro t ht p
+    by_cases hfr : t.isFrac = true
+    · have e := hf3 t ht hfr
+      subst e
+      cases t <;> simp [NTok.isFrac] at hfr <;> simp [NTok.set, NTok.scale]
+    · have hne : (t == f) = false := by
+        cases h : t == f
+        · rfl
+        · have : t = f := by simpa using h
+          subst this; exact absurd hf1 hfr
+      rw [hne]
+      cases t <;> first | rfl | simp [NTok.isFrac] at hfr)
+  have f8 := fold_field v Parsed.tz NTok.isOff (TzP.fixed v.off) ts {} (by intro t _ p; cases t <;> rfl)
+  have f9 := fold_field v Parsed.day_of_year NTok.isDoy (doy v) ts {} (by intro t _ p; cases t <;> rfl)
+  have f10 := fold_field v Parsed.meridiem NTok.isA (decide (v.h ≥ 12)) ts {} (by intro t _ p; cases t <;> rfl)
+  have g1 := fold_field v Parsed.timestamp (fun _ => false) (0, 0) ts {} (by intro t _ p; cases t <;> rfl)
+  have g2 := fold_field v Parsed.quarter (fun _ => false) 0 ts {} (by intro t _ p; cases t <;> rfl)
+  have g4 := fold_field v Parsed.day_of_week (fun _ => false) 0 ts {} (by intro t _ p; cases t <;> rfl)
+  have nofalse : ts.any (fun _ => false) = false := by
+    clear f1 f2 f3 f5 f6 f7 f8 f9 f10 g1 g2 g4 hyy hvd hy hdate hhour hmi hs hz hf2 hf3
+    induction ts <;> simp_all
+  simp only [nofalse, Bool.false_eq_true, if_false] at g1 g2 g4
+  simp only [hy, hmi, hs, hz, hf2, if_true] at f1 f5 f6 f7 f8
+  have hdoy : doy v = Cal.dayOfYear v.y v.mo v.d := Props.C15.day_of_year_spec _ _ _ hv.mo
+  have hdate' : ((ts.foldl (fun p t => NTok.set v t p) ({} : Parsed)).day_of_year = none ∧
+        (ts.foldl (fun p t => NTok.set v t p) ({} : Parsed)).month = some v.mo ∧ (ts.foldl (fun p t => NTok.set v t p) ({} : Parsed)).day = some v.d) ∨
+      ((ts.foldl (fun p t => NTok.set v t p) ({} : Parsed)).day_of_year = some (Cal.dayOfYear v.y v.mo v.d) ∧ Cal.validDate v.y v.mo v.d ∧
+        1000 ≤ v.y ∧ v.y ≤ 9999) := by
+    by_cases hd : ts.any NTok.isDoy = true
+    · right; rw [f9, if_pos hd, hdoy]; exact ⟨rfl, hvd hd, hY.1, hY.2⟩
+    · left
+      rcases hdate with ⟨a, b⟩ | c
+      · rw [f9, f2, f3, if_neg hd, if_pos a, if_pos b]; exact ⟨rfl, rfl, rfl⟩
+      · exact absurd c hd
+  have hhour' : ((ts.foldl (fun p t => NTok.set v t p) ({} : Parsed)).meridiem = none ∧ (ts.foldl (fun p t => NTok.set v t p) ({} : Parsed)).hour = some v.h) ∨
+      (∃ k, (ts.foldl (fun p t => NTok.set v t p) ({} : Parsed)).meridiem = some (decide (v.h ≥ 12)) ∧
+        (ts.foldl (fun p t => NTok.set v t p) ({} : Parsed)).hour = some k ∧ 1 ≤ k ∧ k ≤ 12 ∧ k % 12 = v.h % 12 ∧ 0 ≤ v.h ∧ v.h ≤ 23) := by
+    rcases hhour with ⟨a, b, c⟩ | ⟨a, b, c⟩
+    · left
+      have b' : ∀ t ∈ ts, t.is12 = false := by
+        intro t ht; have := (List.any_eq_false.mp b) t ht; simpa using this
+      have f4 := fold_field v Parsed.hour NTok.is24 v.h ts {} (by
+        intro t ht p
+        have := b' t ht
+        cases t <;> first | rfl | simp [NTok.is12] at this)
+      rw [f10, f4, if_pos a]; simp [c]
+    · right
+      have b' : ∀ t ∈ ts, t.is24 = false := by
+        intro t ht; have := (List.any_eq_false.mp b) t ht; simpa using this
+      have f4 := fold_field v Parsed.hour NTok.is12 (h12 v) ts {} (by
+        intro t ht p
+        have := b' t ht
+        cases t <;> first | rfl | simp [NTok.is24] at this)
+      have hb := h12_bounds v hv
+      refine ⟨h12 v, ?_, ?_, hb.1, hb.2.1, hb.2.2, hv.h.1, hv.h.2⟩
+      · rw [f10, if_pos c]
+      · rw [f4, if_pos a]
+  rw [checkParsed_class _ now v.y v.mo v.d v.h g1 g2 g4 f1 hdate' hhour', f5, f6, f7, f8]
   rfl
 
-/-- **round trip**: a format of the class carrying a full date, time, fraction and offset reads back every field
-    and the offset of every value in the domain, whatever `now` is -/
+/-- **round trip**: a format of the class carrying a full date, time, one fraction token and an offset reads back every field
+    and the offset of every value in the domain, whatever `now` is; the microsecond comes back truncated to the precision the
+    fraction token prints -/
+theorem parse_format_fullX (L : Loc) (v : Val) (hv : InRange v) (its : List FItem) (f : NTok) (now : Now)
+    (hsep : WellSep its = true) (hrep : NoRepeat its = true) (hL : LocOK L its) (hfull : FullX its f = true)
+    (hyy : NTok.YY ∈ toks its → 1969 ≤ v.y ∧ v.y ≤ 2068)
+    (hvd : (toks its).any NTok.isDoy = true → Cal.validDate v.y v.mo v.d) :
+    parseItems L (rendered L v its) (its.map FItem.toItem) now
+      = .ok ⟨v.y, v.mo, v.d, v.h, v.mi, v.s, v.us / f.scale * f.scale, some (TzP.fixed v.off)⟩ := by
+  have hne : its ≠ [] := by
+    intro e; subst e; simp [FullX, toks] at hfull
+  rw [(parse_format_class L v hv its now hne hsep hrep hL).2]
+  simp only [FullX, Bool.and_eq_true, Bool.or_eq_true, Bool.not_eq_true'] at hfull
+  obtain ⟨⟨⟨⟨⟨⟨⟨⟨a1, a2⟩, a3⟩, a4⟩, a5⟩, a6⟩, a7⟩, a8⟩, a9⟩ := hfull
+  refine state_class v hv (toks its) f now hyy hvd a1 a2 ?_ a4 a5 a6 a7 a8 ?_
+  · rcases a3 with ⟨⟨x, y⟩, z⟩ | ⟨⟨x, y⟩, z⟩
+    · exact Or.inl ⟨x, y, z⟩
+    · exact Or.inr ⟨x, y, z⟩
+  · intro t ht hfr
+    have := (List.all_eq_true.mp a9) t ht
+    simpa [hfr] using this
+
+/-- **round trip, basic tokens**: a format of the class carrying a full date, time, six-digit fraction and offset reads
+    back every field and the offset of every value in the domain, whatever `now` is -/
 theorem parse_format_full (L : Loc) (v : Val) (hv : InRange v) (its : List FItem) (now : Now)
     (hsep : WellSep its = true) (hrep : NoRepeat its = true) (hfull : Full its = true) :
-    parseItems L (rendered v its) (its.map FItem.toItem) now
+    parseItems L (rendered L v its) (its.map FItem.toItem) now
       = .ok ⟨v.y, v.mo, v.d, v.h, v.mi, v.s, v.us, some (TzP.fixed v.off)⟩ := by
-  have hne : its ≠ [] := by
-    intro e; subst e; simp [Full, toks] at hfull
-  rw [(parse_format_class L v hv its now hne hsep hrep).2]
-  simp only [Full, Bool.and_eq_true] at hfull
-  obtain ⟨⟨⟨⟨⟨⟨⟨a1, a2⟩, a3⟩, a4⟩, a5⟩, a6⟩, a7⟩, a8⟩ := hfull
-  exact state_full v (toks its) a1 a2 a3 a4 a5 a6 a7 a8 now
+  have hb : ∀ t ∈ toks its, t.basic = true := by
+    simp only [Full, Bool.and_eq_true] at hfull
+    simpa [List.all_eq_true] using hfull.1.1.1.1.1.1.1.1
+  have hx := full_fullX its hfull
+  have := parse_format_fullX L v hv its NTok.SSSSSS now hsep hrep
+    (fun hm => by have := hb _ hm; simp [NTok.basic] at this) hx
+    (fun hm => by have := hb _ hm; simp [NTok.basic] at this)
+    (fun hd => by
+      obtain ⟨t, ht, h⟩ := List.any_eq_true.mp hd
+      have := hb t ht
+      cases t <;> simp [NTok.basic, NTok.isDoy] at this h)
+  rw [this]
+  simp [NTok.scale]
 
 end Pendulum.Fmt
